@@ -31,8 +31,8 @@ def plan(tier, seed):
 
 def floors(tier):
     paths = ["tickMethod.row%02d" % i for i in range(18)] + ["tickMethod.milliseconds", "tickMethod.multi-year"]
-    return {"evaluations": 20000, "strata": ["tiny-ms", "table", "loguniform", "day-window-month-end", "table+calendar-edge"],
-            "events": {"TimeScale.ticks": 20000, "calendar.calls": 10000}, "paths": paths, "distinct_nontrivial": 5000}
+    return {"evaluations": 8000, "strata": ["tiny-ms", "table", "loguniform", "day-window-month-end", "table+calendar-edge"],
+            "events": {"TimeScale.ticks": 8000, "calendar.calls": 10000}, "paths": paths, "distinct_nontrivial": 5000}
 
 
 def run_case(ctx, S, a, b, m, tag):
